@@ -162,8 +162,10 @@ TrEAdd   == IsOpIn({"e_add_d", "e_add_assign_d"}) /\ KeepD /\ X!EAddD(DV(E.b)) /
 TrESub   == IsOpIn({"e_sub_d", "e_sub_assign_d"}) /\ KeepD /\ X!ESubD(DV(E.b)) /\ EpIs(E.res, e')
 TrEAddU  == IsOpIn({"e_add_unit", "e_add_assign_unit"}) /\ KeepD /\ X!EAddD(Ur[E.u]) /\ EpIs(E.res, e')
 TrESubU  == IsOpIn({"e_sub_unit", "e_sub_assign_unit"}) /\ KeepD /\ X!ESubD(Ur[E.u]) /\ EpIs(E.res, e')
-(* Epoch + f64 seconds, the float being an exact integer (logged as that integer) *)
-TrEAddF  == IsOp("e_add_f64") /\ KeepD /\ X!EAddD(M!Clamp(B!Mul(Big(E.secs), Ur[4]))) /\ EpIs(E.res, e')
+(* Epoch + f64 seconds, the float being an exact integer: the duration added is that float times *)
+(* one second by the rule of C18 (exact whenever the product is below 2^53 ns)                    *)
+TrEAddF  == IsOp("e_add_f64") /\ KeepD /\ E.x.k = "fin"
+              /\ X!EAddD(M!Clamp(Dy!MulTrunc(E.x, Ur[4].m))) /\ EpIs(E.res, e')
 
 (* e - f: the re-expression fc of f in the scale of e is not logged; TLC infers it *)
 TrESubE == IsOp("e_sub_e") /\ KeepD /\ IsDur(E.res) /\
